@@ -145,6 +145,11 @@ theorem rejection_is_an_error (c code : Code) (h : consistent (some (.rejected c
   simp [consistent] at h
   exact ⟨fun h0 => h.2 (h.1 ▸ h0), h.1⟩
 
+/-- **result_stored_before_done** — the model's `complete` makes the batch's final result and its completion visible in
+one step (`done := some code`); in the source as it stands `(*writeBatch).complete` stores the error before it closes
+the done channel, so a caller woken by the channel reads the final error (regenerated on every run). -/
+theorem result_stored_before_done : Gen.completeStoresErrFirst = true := by decide
+
 /-- **delivered_ack_is_success** — an attempt whose acknowledgement reached the client ends without error, and the
 batch is not attempted again: the sender goes on to complete it with nil.  (What the broker applied and acknowledged
 but the client did NOT get is `lost`; over the real Transport the run distinguishes the two by whether the broker's
